@@ -189,6 +189,8 @@ service("BodyService", [
     ep("bodySmall10", "POST", "/b/small10", [arg("body", STRING, "body")], tags=["server-limit-request-size: 10b"]),
     ep("bodySmall64", "POST", "/b/small64", [arg("body", ref("Leaf"), "body")], tags=["server-limit-request-size: 64b"]),
     ep("bodyKib", "POST", "/b/kib", [arg("body", ref("Node"), "body")], tags=["server-limit-request-size: 1kib"]),
+    ep("bodyOptSmall", "POST", "/b/optSmall", [arg("body", opt(STRING), "body")], tags=["server-limit-request-size: 16b"]),
+    ep("bodyOptAliasSmall", "POST", "/b/optAliasSmall", [arg("body", ref("OptStrAlias"), "body")], tags=["server-limit-request-size: 16b"]),
     ep("bodyKb", "POST", "/b/kb", [arg("body", ref("Node"), "body")], tags=["server-limit-request-size: 1 KB"]),
     ep("bodyHundred", "POST", "/b/hundred", [arg("body", lst(STRING), "body")], returns=INTEGER, tags=["server-limit-request-size: 100"]),
     ep("bodyWithParams", "POST", "/b/with/{p}", [
@@ -227,6 +229,66 @@ service("ReturnService", [
     ep("retCtx", "GET", "/r/ctx", [arg("q", opt(STRING), "query")], returns=STRING, tags=["server-request-context"]),
     ep("retCtxNoArgs", "GET", "/r/ctxNoArgs", tags=["server-request-context"]),
 ])
+
+# ---- systematically varied shapes: a seeded (fixed) draw of argument / body / return types so that every
+# container x leaf combination the generator has special cases for appears somewhere
+import random
+rnd = random.Random(20261002)
+LEAVES = [STRING, INTEGER, DOUBLE, SAFELONG, BOOLEAN, UUID, RID, BEARERTOKEN, DATETIME, BINARY,
+          ref("Color"), ref("StrAlias"), ref("IntAlias"), ref("DoubleAlias"), ref("UuidAlias"), ref("Leaf"), ref("Choice"), ref("Empty")]
+KEYS = [STRING, INTEGER, DOUBLE, SAFELONG, BOOLEAN, UUID, RID, BEARERTOKEN, DATETIME, ref("Color"), ref("StrAlias")]
+def is_binary_t(t): return t == BINARY or t == ref("BinaryAlias")
+def is_optional(t):
+    while True:
+        k = t["type"]
+        if k == "external": t = t["external"]["fallback"]
+        elif k == "reference":
+            d = [x for x in types if x[x["type"]]["typeName"]["name"] == t["reference"]["name"]][0]
+            if d["type"] != "alias": return None
+            t = d["alias"]["alias"]
+        else: break
+    return t["optional"]["itemType"] if t["type"] == "optional" else None
+def shape(depth=0):
+    r = rnd.random()
+    if depth >= 2 or r < 0.25:
+        t = rnd.choice(LEAVES)
+        return t
+    if r < 0.45:
+        # the Conjure compiler rejects optional<optional<..>> (Some(None) and None are both `null` on the wire)
+        while True:
+            inner = shape(depth + 1)
+            if is_optional(inner) is None: return opt(inner)
+    if r < 0.65: return lst(shape(depth + 1))
+    if r < 0.75:
+        inner = rnd.choice([STRING, INTEGER, DOUBLE, SAFELONG, BOOLEAN, UUID, RID, DATETIME, ref("Color"), ref("StrAlias"), ref("Leaf")])
+        return st(inner)
+    if r < 0.92: return mp(rnd.choice(KEYS), shape(depth + 1))
+    return ext(shape(depth + 1))
+def no_nested_binary(t, top=True):
+    # binary is only legal as a whole body / return (or optional return); elsewhere keep it out of containers of containers
+    k = t["type"]
+    if k == "primitive": return True
+    if k == "optional": return no_nested_binary(t["optional"]["itemType"], False)
+    if k == "list": return no_nested_binary(t["list"]["itemType"], False)
+    if k == "set": return no_nested_binary(t["set"]["itemType"], False)
+    if k == "map": return no_nested_binary(t["map"]["valueType"], False)
+    if k == "external": return no_nested_binary(t["external"]["fallback"], top)
+    return True
+shape_eps = []
+for i in range(28):
+    while True:
+        b = shape(); r = shape()
+        # a top-level (optional) binary would turn the endpoint into a streaming one: covered elsewhere
+        def streaming(t):
+            t2 = t
+            while t2["type"] == "external": t2 = t2["external"]["fallback"]
+            if t2["type"] == "optional": t2 = t2["optional"]["itemType"]
+            while t2["type"] == "external": t2 = t2["external"]["fallback"]
+            return t2 == BINARY
+        if not streaming(b) and not streaming(r): break
+    tags = ["server-limit-request-size: %d" % rnd.choice([40, 200, 3000])] if i % 7 == 3 else []
+    shape_eps.append(ep("shape%d" % i, "POST", "/x/shape%d" % i, [arg("body", b, "body")], returns=r, tags=tags))
+service("ShapeService", shape_eps)
 
 ir = {"version": 1, "errors": [], "types": types, "services": services, "extensions": {}}
 with open(os.path.join(HERE, "sim-ir.json"), "w") as f:
